@@ -34,7 +34,7 @@ def shards(tier, seed):
 def requirements(tier):
     kinds_b = ["chunk_nonpositive", "empty_tensors", "duplicate_tensor", "input_non_leaf", "input_no_requires_grad",
                "aggregator_rejects_rows", "aggregator_rejects_nonfinite"]
-    kinds_m = ["chunk_nonpositive", "empty_features", "empty_losses", "non_scalar_loss", "more_param_groups_than_losses",
+    kinds_m = ["chunk_nonpositive", "empty_features", "empty_losses", "non_scalar_loss", "non_scalar_loss_single_element", "more_param_groups_than_losses",
                "fewer_param_groups_than_losses", "shared_task_overlap", "duplicate_feature", "duplicate_task_param",
                "duplicate_shared_param", "task_param_non_leaf", "shared_param_non_leaf", "task_param_no_requires_grad",
                "shared_param_no_requires_grad"]
@@ -75,7 +75,10 @@ def _attempt(call, leaves, ctx, kind, case_desc, extra):
             ctx.violation("rejected_call_modified_grad", case_desc, {"kind": kind, "error": repr(e)[:200], "modified_leaves": bad,
                                                                      "had_grad_before": [before[i][0] is not None for i in bad], **extra})
         return True
+    # every kind driven here is one the statement lists as refused (on the unchanged tree none is ever accepted): a call that
+    # goes through instead has, in particular, modified .grad fields on the strength of invalid arguments
     ctx.count(f"obs_accepted:{kind}")
+    ctx.violation("invalid_call_was_not_refused", case_desc, {"kind": kind, "modified_leaves": aj.grads_untouched(leaves, before), **extra})
     return False
 
 
@@ -218,6 +221,11 @@ def check_mtl(case, ctx):
         losses = list(b.losses)
         losses[i] = torch.stack([losses[i], 2 * losses[i]])
         run("non_scalar_loss", lambda: mtl_backward(losses, b.features, agg(), tasks_params=ta, shared_params=sh), b, {"position": i}, later=i > 0)
+        # a loss that is not 0-d although it holds ONE element (raw output of Linear(k, 1), a keepdim reduction): not a scalar either
+        b, sh, ta = fresh()
+        losses = list(b.losses)
+        losses[i] = losses[i].reshape([1] if i % 2 == 0 else [1, 1])
+        run("non_scalar_loss_single_element", lambda: mtl_backward(losses, b.features, agg(), tasks_params=ta, shared_params=sh), b, {"position": i}, later=i > 0)
     b, sh, ta = fresh()
     run("more_param_groups_than_losses", lambda: mtl_backward(b.losses, b.features, agg(), tasks_params=ta + [[]], shared_params=sh), b)
     b, sh, ta = fresh()
